@@ -87,7 +87,7 @@ class PartitionWellFormed(Contract):
                  "pytato.distributed.partition:_set_dict_union_mpi",
                  "pytato.distributed.verify:verify_distributed_partition",
                  "pytato.distributed.tags:number_distributed_tags")
-    properties = ("C09", "C10")
+    properties = ("C09", "C10", "C08")
     max_paths = 50
 
     def instances(self, tier):
@@ -105,7 +105,10 @@ class PartitionWellFormed(Contract):
     def canaries(self, tier):
         return [(dict(label="pingpong;ranks=2;chain", prog="pingpong", size=2,
                       staple="chain"), "expect-a-phantom-send",
-                 "dist.find.sends")]
+                 "dist.find.sends"),
+                (dict(label="halo2;ranks=2;chain", prog="halo2", size=2,
+                      staple="chain"), "partition-computes-something-else",
+                 "dist.find.value", ("C08",))]
 
     def run(self, h, inst):
         prog, size = inst["prog"], inst["size"]
@@ -135,10 +138,55 @@ class PartitionWellFormed(Contract):
         for k, bad in per_clause.items():
             h.oblige(f"dist.find.{k}", z3.BoolVal(not bad), info=bad[:4],
                      props=("C09",))
+        self.value_preserved(h, ctxs, [s for s, _, _ in res])
+
+    def value_preserved(self, h, ctxs, partitions):
+        """C08, value part only: the parts, wired together by the messages
+        and part-output names, denote what the unpartitioned global data-flow
+        graph denotes -- for all inputs (schedule-independent by
+        construction: the global part graph is acyclic, dist.find.no-deadlock)
+        """
+        from contracts.c07_kernel import pytato_den
+        from pyvc.den import ArrayModel
+        from pyvc.ptlib import in_box, oblige_equal_den
+        n = len(partitions)
+        try:
+            orig = D.global_original([ctxs[r].outputs for r in range(n)])
+            inputs = [{"x": ctxs[r].x} for r in range(n)]
+            part = D.global_partitioned(partitions, inputs)
+        except (ValueError, KeyError) as e:
+            h.fail("dist.find.value.global-data-flow-defined",
+                   f"{type(e).__name__}: {e}", props=("C08",))
+            return
+        arrays = ArrayModel()
+        for r in range(n):
+            for name, e0 in orig[r].items():
+                if name not in part[r]:
+                    h.fail(f"dist.find.value.output-present[{name}]",
+                           f"rank {r}", props=("C08",))
+                    continue
+                e1 = part[r][name]
+                ok_shape = tuple(e0.shape) == tuple(e1.shape) and \
+                    e0.dtype == e1.dtype
+                h.oblige(f"dist.find.value.shape-dtype[{name}]",
+                         z3.BoolVal(ok_shape), props=("C08",))
+                if not ok_shape:
+                    continue
+                ivars = [z3.Int(f"i{d}") for d in range(e0.ndim)]
+                box = in_box(ivars, e0.shape)
+                want = pytato_den(h, arrays, e0, ivars)
+                got = pytato_den(h, arrays, e1, ivars)
+                if h.canary == "partition-computes-something-else" and \
+                        z3.is_expr(want):
+                    want = want + 1
+                oblige_equal_den(h, f"dist.find.value[rank{r}:{name}]", box,
+                                 got, want, props=("C08",))
 
     def replay(self, inst, clause, model, info):
+        fn = "replay_value" if clause.startswith("dist.find.value") \
+            else "replay_valid"
         return FIND_REPLAY.format(prog=inst["prog"], size=inst["size"],
-                                  staple=inst["staple"])
+                                  staple=inst["staple"], fn=fn)
 
 
 CLAUSES = ("outputs-produced-once", "sends", "receives",
@@ -175,8 +223,8 @@ def classify(b):
 FIND_REPLAY = '''
 import sys
 sys.path.insert(0, "/verif")
-from pyvc.replay_dist import replay_valid
-replay_valid({prog!r}, {size!r}, {staple!r})
+from pyvc.replay_dist import {fn}
+{fn}({prog!r}, {size!r}, {staple!r})
 '''
 
 
